@@ -167,7 +167,7 @@ func inLedgerPkg(w *World, fn *ssa.Function) bool {
 }
 
 func checkC06(w *World, r *Report) {
-	r.Explanation = "Structural clause of C06: with every program point of every module function reachable from an ABCI entry labelled T (consensus), F (CheckTx), Q (Query) or ⊤ (shared) — from the entry it is reached from, refined by dominating tests of the exec flag (TrxContext.Exec, StateDBWrapper.exec, bool parameters that receive it) — (X-1a) every consensus-overlay ledger method on a live ledger is called at a T point and (X-1b) every mempool-overlay method at an F point, including both arms of the `fn := L.Get; if exec { fn = L.GetFinality }` idiom which must name the same ledger; (X-1c) every argument bound to a parameter that receives the exec flag, and every store to TrxContext.Exec / StateDBWrapper.exec, is the flag itself or a constant that agrees with the context of the call; (X-2) no in-memory controller state is written at a point that is not T (the query's scratch StateDBWrapper excepted); (X-3) every success return of FinalityLedger.Commit resets the mempool overlay; (X-4) the live EVM state is touched only at T points."
+	r.Explanation = "Structural clause of C06: with every program point of every module function reachable from an ABCI entry labelled T (consensus), F (CheckTx), Q (Query) or ⊤ (shared) — from the entry it is reached from, refined by dominating tests of the exec flag (TrxContext.Exec, StateDBWrapper.exec, bool parameters that receive it) — (X-1a) every consensus-overlay ledger method on a live ledger is called at a T point and (X-1b) every mempool-overlay method at an F point, including both arms of the `fn := L.Get; if exec { fn = L.GetFinality }` idiom which must name the same ledger; (X-1c) every argument bound to a parameter that receives the exec flag, and every store to TrxContext.Exec / StateDBWrapper.exec, is the flag itself or a constant that agrees with the context of the call; (X-2) no in-memory controller state is written at a point that is not T (the query's scratch StateDBWrapper excepted); (X-3) every success return of FinalityLedger.Commit resets the mempool overlay; (X-4) the live EVM state is touched only at T points; (X-5) inside the ledger package, mempool-overlay operations never change what the consensus overlay reads or what a commit writes, and a commit discards the mempool overlay (the abstract interpretation of C18 L-1)."
 	r.NotCovered = "interleavings below ABCI-call granularity (Query takes no application mutex); equality of results as such; internals of iavl/go-ethereum caches."
 
 	x := NewExecCtx(w)
@@ -188,6 +188,11 @@ func checkC06(w *World, r *Report) {
 	x2(w, r, x)
 	x3(w, r)
 	x4(w, r, x)
+	// X-5: inside the ledger, mempool-overlay operations never change what the
+	// consensus overlay reads or commits (C18 L-1, decided by abstract interpretation)
+	if r.importObs(w, func(t *Report) { l1(w, t) }, "L-1", "X-5") == 0 {
+		r.Undecided("X-5", "ledger-isolation", "the ledger's overlay semantics could not be evaluated")
+	}
 
 	r.Floor("X-1a", 20, "consensus-overlay call arms on live ledgers")
 	r.Floor("X-1b", 12, "mempool-overlay call arms on live ledgers")
@@ -195,6 +200,7 @@ func checkC06(w *World, r *Report) {
 	r.Floor("X-2", 15, "controller-state writes")
 	r.Floor("X-3", 1, "reset on commit")
 	r.Floor("X-4", 5, "live EVM state accesses")
+	r.Floor("X-5", 2, "ledger-internal isolation")
 }
 
 func armPol(x *ExecCtx, a ledgerArm) pol {
